@@ -22,16 +22,19 @@ ENGINE = "direct"
 TECHNIQUE = "lock-step shadow model over random operation histories; serialise/parse round trip"
 BUDGET = {"quick": (6_000, 16), "thorough": (120_000, 200)}
 WORKERS = {"quick": 2, "thorough": 16}
-REQUIRED = ["op.result", "op.fields", "h1_roundtrip"]
+REQUIRED = ["op.result", "op.fields", "h1_roundtrip", "histories.with_near_equal_distinct_names"]
 RULE = (
     "case = a history of 1-40 operations ([] get/set/del, get, in, add, insert(i), get_all/set_all, pop, popitem, setdefault, "
     "update (pairs / other headers / kwargs), keys/values/items (multi and not), iteration, len, ==, copy, clear, construction "
-    "with kwargs) on a pool of <=3 Headers objects over names {A,a,Aa,aA,b,B,X-y} given as str or bytes and 10 small values "
+    "with kwargs) on a pool of <=3 Headers objects over a per-history name universe = case family {A,a,Aa,aA,b,B} plus one family of names that are "
+    "equal up to something other than ASCII case and must stay distinct (X-y/X_y/Xy; trailing/leading space, dot, tab; :a/a/a:; "
+    "non-ASCII case pairs A-umlaut, sharp s/SS, Kelvin sign/k, dotted/dotless i, latin-1 and surrogate-escaped bytes) given as str or bytes and 10 small values "
     "(empty, commas, non-ASCII, non-UTF-8 bytes, padded), plus one generated valid field list (token names, field-content "
-    "values) for the HTTP/1 round trip. distinct = (length class, set (<=3, else its size) of mutating operations that addressed a "
+    "values) for the HTTP/1 round trip. distinct = (name family, whether an operation met a near-equal-but-distinct name, length class, set (<=3, else its size) of mutating operations that addressed a "
     "name held by >=2 fields or in another spelling, whether a reading operation did, whether a KeyError was raised, whether a "
     "round trip of a reached state happened); "
-    "non-trivial = at least one mutating operation addressed a name present several times or in a different spelling"
+    "non-trivial = at least one mutating operation addressed a name present several times or in a different spelling, or an operation's "
+    "name met a stored name that differs from it only by non-case characters"
 )
 ASSUMPTIONS = [
     "names are case-insensitive in the ASCII range only (HTTP field names are tokens)",
@@ -45,7 +48,30 @@ LEVEL_TEXT = (
 )
 LEVEL_NOTE = "Trusted: vf/ref/c35_multimap.py (150 lines, list based) and the statement-level reading documented in its docstring."
 
-NAMES = ["A", "a", "Aa", "aA", "b", "B", "X-y"]
+F_CASE = ["A", "a", "Aa", "aA", "b", "B"]
+# names that are equal up to something OTHER than ASCII letter case -- they must stay distinct names
+FAMILIES = {
+    "plain": ["X-y"],
+    "sep": ["X-y", "x-y", "X_y", "x_y", "X-Y", "X_Y", "Xy"],
+    "edge": ["X-y", "x-y", "X-y ", " X-y", "X-y.", ".X-y", "X-y\t", "X--y"],
+    "pseudo": [":a", ":A", "a:", ":a:", ":b", "::a"],
+    "unicode": ["\u00c4", "\u00e4", "\u00df", "SS", "ss", "\u1e9e", "K", "k", "\u212a", "\u0130", "i", "I", "\u0131", "i\u0307", b"\xc4", b"\xe4", "\udcc4", "\udce4"],
+}
+CUR = {"names": F_CASE + ["X-y"], "family": "plain"}
+NAMES = F_CASE + ["X-y"]  # default universe (documentation; the per-history universe is CUR["names"])
+
+
+def choose_universe(r):
+    """Per history: the case family plus one family of near-equal-but-distinct names, so that collisions stay frequent."""
+    fam = r.choice(["plain", "plain", "sep", "sep", "edge", "pseudo", "unicode", "unicode"])
+    base = F_CASE if fam == "plain" else r.sample(F_CASE, 3) + (["a", "A"] if fam == "pseudo" else [])
+    CUR["names"], CUR["family"] = base + FAMILIES[fam], fam
+
+
+def loose(name) -> str:
+    """A deliberately too generous equivalence (what a wrong canonicalisation might do) -- used only to describe cases."""
+    t = ref.to_s(ref.to_b(name)).casefold().replace("_", "-").strip(" .\t:")
+    return t
 VALUES = ["", "1", "2", "x, y", "é", "\udcff", b"\xff\xfe", "a b", " pad ", "v:w"]
 MUTATORS = {"setitem", "delitem", "add", "insert", "set_all", "pop", "popitem", "setdefault", "update_pairs", "update_from", "update_kwargs", "clear"}
 
@@ -60,8 +86,10 @@ OP_W = [w for _, w in OPS]
 
 
 def gen_key(r):
-    k = r.choice(NAMES)
-    return k.encode() if r.random() < 0.2 else k
+    k = r.choice(CUR["names"])
+    if isinstance(k, bytes):
+        return k
+    return ref.to_b(k) if r.random() < 0.2 else k
 
 
 def gen_val(r):
@@ -72,7 +100,7 @@ def gen_val(r):
 
 
 def gen_fields(r, n):
-    return [(r.choice(NAMES).encode(), ref.to_b(r.choice(VALUES))) for _ in range(n)]
+    return [(ref.to_b(r.choice(CUR["names"])), ref.to_b(r.choice(VALUES))) for _ in range(n)]
 
 
 TOK = "!#$%&'*+-.^_`|~019azAZ"
@@ -150,7 +178,9 @@ def classify(hist):
 
 
 def one_history(ctx, r):
+    choose_universe(r)
     n_ops = r.choice([1, 2, 3, 5, 8, 12, 20, 40])
+    near = False
     init = gen_fields(r, r.choice([0, 1, 2, 3, 5]))
     pool = [(Headers(init), ref.RefHeaders(init))]
     hist = [("init", init)]
@@ -212,8 +242,9 @@ def one_history(ctx, r):
             special = len(pool[other][1].f) > pool[other][1].length()
             res_r, res_m = call(real.update, pool[other][0]), call(model.update_from, pool[other][1].copy())
         elif op == "update_kwargs":
-            kw = {r.choice(["A", "a", "b", "Aa"]): r.choice(["1", "2", ""])}
+            kw = {r.choice([n for n in CUR["names"] if isinstance(n, str)]): r.choice(["1", "2", ""])}
             rec = (op, slot, kw)
+            special = any(len(model._idx(pk)) > 1 or any(model.f[i][0] != ref.to_b(pk) for i in model._idx(pk)) for pk in kw)
             res_r, res_m = call(real.update, **kw), call(model.update_pairs, list(kw.items()))
         elif op == "keys":
             m = r.random() < 0.5
@@ -276,7 +307,7 @@ def one_history(ctx, r):
                 res_r, res_m = call(real.clear), call(model.clear)
         elif op == "new_kwargs":
             base = gen_fields(r, r.choice([0, 1, 2]))
-            kw = {r.choice(["a", "b", "x_y", "Aa"]): r.choice(["1", "é", b"\xff"])}
+            kw = {r.choice(["a", "b", "x_y", "X_y", "Aa"]): r.choice(["1", "é", b"\xff"])}
             rec = (op, slot, base, kw)
             n_r = Headers(base, **kw)
             n_m = ref.RefHeaders(base)
@@ -288,6 +319,9 @@ def one_history(ctx, r):
                 roundtrip(ctx, list(model.f), "history-state")
                 did_rt = True
             res_r = res_m = ("ok", None)
+        if not near and isinstance(k, (str, bytes)):
+            lk = loose(k)
+            near = any(loose(n) == lk and ref.fold(n) != ref.fold(ref.to_b(k)) for n, _ in model.f)
         hist.append(rec)
         ctx.count("op.result")
         ctx.count(f"ops.{op}")
@@ -304,7 +338,9 @@ def one_history(ctx, r):
             return ("diverged-fields", op), True, hist
     ln = 0 if n_ops <= 3 else 1 if n_ops <= 12 else 2
     hm = sorted(hit_multi & MUTATORS)
-    return (ln, tuple(hm) if len(hm) <= 3 else ("many", len(hm)), bool(hit_multi - MUTATORS), bool(raised), did_rt), nontrivial, hist
+    if near:
+        ctx.count("histories.with_near_equal_distinct_names")
+    return (CUR["family"], near, ln, tuple(hm) if len(hm) <= 3 else ("many", len(hm)), bool(hit_multi - MUTATORS), bool(raised), did_rt), nontrivial or near, hist
 
 
 def _alarm(signum, frame):
